@@ -37,4 +37,21 @@ def mod (a : Int) (b : Nat) : Int := a % (b : Int)
 /-- `len(l)` / `frame.shape[0]` -/
 def len {α : Type} (l : List α) : Nat := l.length
 
+/-- `itertools.combinations(l, r)` for `r ≥ 0`, in itertools' (lexicographic by position) order -/
+def combsNat {α : Type} : List α → Nat → List (List α)
+  | _, 0 => [[]]
+  | [], _ + 1 => []
+  | x :: xs, r + 1 => (combsNat xs r).map (fun t => x :: t) ++ combsNat xs (r + 1)
+
+/-- `list(itertools.combinations(l, r))`; a negative `r` (itertools raises `ValueError`) yields no combination -/
+def combinations {α : Type} (l : List α) (r : Int) : List (List α) :=
+  if r < 0 then [] else combsNat l r.toNat
+
+/-- `try: l.remove(v)  except ValueError: pass` — the first occurrence of `v` is removed if there is one;
+    `v = None` (`none`) is never an element of a list of column indices -/
+def removeIfPresent (l : List Nat) (v : Option Nat) : List Nat :=
+  match v with
+  | none => l
+  | some x => l.erase x
+
 end ZV.Py
